@@ -11,6 +11,9 @@ TYPES = st.sampled_from(["t", "nix.type", "ü-typ", "a b"])
 UNITS = st.sampled_from([None, "mV", "s", "ms", "Hz", "kHz", "uA", "V"])
 TEXT = gen.attr_text()
 SMALLF = st.integers(-40, 40).map(lambda i: i / 8.0)
+# numeric attributes take Python ints as well as floats; an int followed by a fractional value (and vice versa)
+# must not be squeezed into the type stored first
+NUM = st.one_of(SMALLF, SMALLF, st.integers(-4, 4))
 
 
 def fixed(**kw):
@@ -64,7 +67,7 @@ def op_strategies(name_pool=None):
     S["mk_source"] = fixed(op="mk_source", blk=IDX, p=st.one_of(st.none(), IDX), name=nm, type=TYPES, how=HOW)
     S["mk_feature"] = fixed(op="mk_feature", on=st.sampled_from(["tag", "mtag"]), t=IDX, da=IDX,
                             lt=st.sampled_from(["tagged", "untagged", "indexed"]), how=HOW)
-    S["mk_dim_sampled"] = fixed(op="mk_dim", da=IDX, kind="sampled", interval=st.sampled_from([0.5, 1.0, 0.1, 2.0]),
+    S["mk_dim_sampled"] = fixed(op="mk_dim", da=IDX, kind="sampled", interval=st.sampled_from([0.5, 1.0, 0.1, 2.0, 1, 2]),
                                 label=TEXT, unit=UNITS, offset=st.one_of(st.none(), SMALLF), how=HOW)
     S["mk_dim_range"] = fixed(op="mk_dim", da=IDX, kind="range",
                               ticks=st.one_of(st.none(), st.lists(SMALLF, min_size=1, max_size=5).map(sorted)),
@@ -83,7 +86,7 @@ def op_strategies(name_pool=None):
     S["set_array"] = st.one_of(
         fixed(op="set", k="array", t=IDX, attr="label", val=TEXT, how=HOW),
         fixed(op="set", k="array", t=IDX, attr="unit", val=UNITS, how=HOW),
-        fixed(op="set", k="array", t=IDX, attr="expansion_origin", val=st.one_of(st.none(), SMALLF), how=HOW),
+        fixed(op="set", k="array", t=IDX, attr="expansion_origin", val=st.one_of(st.none(), NUM), how=HOW),
         fixed(op="set", k="array", t=IDX, attr="polynom_coefficients",
               val=st.one_of(st.none(), st.lists(SMALLF, min_size=1, max_size=3)), how=HOW))
     S["set_tag"] = st.one_of(
@@ -102,8 +105,8 @@ def op_strategies(name_pool=None):
     S["set_dim"] = st.one_of(
         fixed(op="set_dim", da=IDX, dim=IDX, attr="label", val=TEXT, how=HOW),
         fixed(op="set_dim", da=IDX, dim=IDX, attr="unit", val=UNITS, how=HOW),
-        fixed(op="set_dim", da=IDX, dim=IDX, attr="offset", val=st.one_of(st.none(), SMALLF), how=HOW),
-        fixed(op="set_dim", da=IDX, dim=IDX, attr="sampling_interval", val=st.sampled_from([0.25, 1.0, 3.0]), how=HOW),
+        fixed(op="set_dim", da=IDX, dim=IDX, attr="offset", val=st.one_of(st.none(), NUM), how=HOW),
+        fixed(op="set_dim", da=IDX, dim=IDX, attr="sampling_interval", val=st.sampled_from([0.25, 1.0, 3.0, 2, 1, 0.5]), how=HOW),
         fixed(op="set_dim", da=IDX, dim=IDX, attr="ticks", val=st.lists(SMALLF, min_size=1, max_size=4).map(sorted), how=HOW),
         fixed(op="set_dim", da=IDX, dim=IDX, attr="labels", val=st.lists(st.text(alphabet=gen.NAME_ALPHA, max_size=3), max_size=4), how=HOW))
     S["force_ts"] = fixed(op="force_ts", k=st.sampled_from(["file", "block", "group", "array", "tag", "mtag", "source", "section", "prop"]),
@@ -287,7 +290,7 @@ def attr_table():
         T.append((k, "type", TYPES, False))
         T.append((k, "definition", TEXT, True))
     T += [("array", "label", TEXT, True), ("array", "unit", UNITS, True),
-          ("array", "expansion_origin", SMALLF, True),
+          ("array", "expansion_origin", NUM, True),
           ("array", "polynom_coefficients", st.lists(SMALLF, min_size=1, max_size=3), True),
           ("tag", "position", st.lists(SMALLF, min_size=1, max_size=3), False),
           ("tag", "extent", st.lists(SMALLF, min_size=1, max_size=3), True),
@@ -317,8 +320,8 @@ def attr_sweep(draw, reopen=True):
             elif where == 1:
                 seq.insert(1, None)
         chunks.append([{"op": "set", "k": k, "t": t, "attr": attr, "val": v, "how": draw(HOW)} for v in seq])
-    for dkind_attr, vals in (("label", TEXT), ("unit", UNITS), ("offset", SMALLF),
-                             ("sampling_interval", st.sampled_from([0.25, 1.0, 3.0])),
+    for dkind_attr, vals in (("label", TEXT), ("unit", UNITS), ("offset", NUM),
+                             ("sampling_interval", st.sampled_from([0.25, 1.0, 3.0, 2, 1, 0.5])),
                              ("ticks", st.lists(SMALLF, min_size=1, max_size=4).map(sorted)),
                              ("labels", st.lists(st.text(alphabet=gen.NAME_ALPHA, max_size=3), max_size=4))):
         for _ in range(2):
@@ -327,6 +330,10 @@ def attr_sweep(draw, reopen=True):
                             "how": draw(HOW)} for _ in range(2)])
     chunks = draw(st.permutations(chunks))
     prog = [o for ch in chunks for o in ch]
+    # regularly sampled descriptors to address (integer-valued first writes included)
+    pre = [{"op": "mk_dim", "da": draw(IDX), "kind": "sampled", "interval": draw(st.sampled_from([1, 2, 0.5, 1.0])),
+            "offset": draw(st.one_of(st.none(), NUM))} for _ in range(2)]
+    prog = pre + prog
     if reopen:
         for _ in range(draw(st.integers(0, 2))):
             prog.insert(draw(st.integers(0, len(prog))), {"op": "reopen", "mode": draw(st.sampled_from(["a", "r"]))})
